@@ -243,6 +243,7 @@ lay_stats = {"typedefs": 0, "with_bf": 0, "real_equal": 0, "real_differ": 0, "si
              "classes": {}}
 seen_decl = set()
 shrunk_count = {}
+reported = set()
 SHRINK_CAP = 12
 
 
@@ -304,6 +305,10 @@ def layout_process(types, origin):
         lay_stats["classes"][sig] = lay_stats["classes"].get(sig, 0) + 1
         if fl.get("simple") == "1" or fl.get("nobf") == "1":
             sig += "+side-condition-holds"
+        if (sig, G.to_str(small)) in reported:
+            lay_stats["duplicate_reports_suppressed"] = lay_stats.get("duplicate_reports_suppressed", 0) + 1
+            continue
+        reported.add((sig, G.to_str(small)))
         ck.violation({"stage": "tie", "theorem_or_correspondence": "layout: c2m vs gcc (layout_meets_sysv)",
                       "input": {"kind": "layout", "decl": G.to_str(small), "found_in": r["decl"], "origin": origin,
                                 "c_source": c_text(small)},
